@@ -188,7 +188,7 @@ func RunTermination(t *rapid.T, test string) {
 		t.Fatalf("VERIF-INFRA: shadow: %v", err)
 	}
 	defer shadow.Close()
-	w := &world{victim: -1, opt: Options{Test: test, Prop: "C03"}, t: t, s: s, net: net, blocks: map[int64][]blockInfo{}}
+	w := &world{victim: -1, decider: -1, opt: Options{Test: test, Prop: "C03"}, t: t, s: s, net: net, blocks: map[int64][]blockInfo{}}
 
 	// ---------------- adversarial prefix
 	prefix := rapid.SampledFrom([]string{"structured", "structured", "free", "both", "calm-then-structured", "gadget-locks", "gadget-locks", "gadget-commit-noblock"}).Draw(t, "prefix")
